@@ -77,7 +77,8 @@ Detail(e) ==
 Init == l = 1
 Next == /\ l <= Len(Rec)
         /\ l' = l + 1
-        /\ IF EventOK(Rec[l]) THEN TRUE
+        /\ IF ~InClass(Rec[l]) THEN PrintT(<<"OUTCLASS", l>>)           \* counted by the driver (none is generated)
+           ELSE IF EventOK(Rec[l]) THEN TRUE
            ELSE PrintT(<<"BAD", l, Class(Rec[l])>>) /\ PrintT(<<"DETAIL", l, Detail(Rec[l])>>)
 Spec == Init /\ [][Next]_l
 Accepted == TLCGet("stats").diameter - 1 = Len(Rec)
